@@ -62,7 +62,10 @@ func shortName(pkgPath string) string {
 
 // Load loads the repository at dir for the given GOARCH. Any load or type error is an
 // infrastructure failure: the caller exits 2 without a verdict.
-func Load(dir, goarch string) (*World, error) {
+func Load(dir, goarch string) (*World, error) { return LoadMod(dir, goarch, modulePath, 9) }
+
+// LoadMod loads the module rooted at dir; packages whose path starts with modPrefix are analysed.
+func LoadMod(dir, goarch, modPrefix string, minPkgs int) (*World, error) {
 	env := []string{}
 	for _, e := range os.Environ() {
 		k := e
@@ -102,7 +105,7 @@ func Load(dir, goarch string) (*World, error) {
 	}
 	w := &World{Dir: dir, GOARCH: goarch, Fset: fset, Pkgs: map[string]*packages.Package{}, SSA: map[string]*ssa.Package{}}
 	for _, p := range pkgs {
-		if !strings.HasPrefix(p.PkgPath, modulePath) {
+		if !strings.HasPrefix(p.PkgPath, modPrefix) {
 			continue
 		}
 		if p.Types == nil || p.TypesInfo == nil || len(p.Syntax) == 0 {
@@ -114,8 +117,8 @@ func Load(dir, goarch string) (*World, error) {
 			w.Sizes = p.TypesSizes
 		}
 	}
-	if len(w.All) < 9 {
-		return nil, fmt.Errorf("expected at least 9 repository packages, loaded %d", len(w.All))
+	if len(w.All) < minPkgs {
+		return nil, fmt.Errorf("expected at least %d packages, loaded %d", minPkgs, len(w.All))
 	}
 	sort.Slice(w.All, func(i, j int) bool { return w.All[i].PkgPath < w.All[j].PkgPath })
 	prog, ssapkgs := ssautil.Packages(w.All, ssa.InstantiateGenerics)
